@@ -1,12 +1,14 @@
 package nebula
 
 import (
+	"errors"
 	"log/slog"
 	"net/netip"
 	"time"
 
 	"github.com/gaissmai/bart"
 	"github.com/slackhq/nebula/cert"
+	"github.com/slackhq/nebula/config"
 	"github.com/slackhq/nebula/firewall"
 )
 
@@ -72,4 +74,91 @@ func VerifC19Revalidate() {
 		o = 1
 	}
 	verifObserve("passed", o)
+}
+
+// ---- the reload itself ----
+
+var c19NewFW *Firewall
+var c19ConfigChanged bool
+
+func c19NewFirewall(l *slog.Logger, cs *CertState, c *config.C) (*Firewall, error) {
+	if c19NewFW == nil {
+		return nil, errors.New("bad firewall config")
+	}
+	return c19NewFW, nil
+}
+func c19HasChanged(c *config.C, k string) bool { return c19ConfigChanged }
+func c19RuleHash(f *Firewall) string           { return f.rules } // stands in for the SHA-256 of the rules text: equal exactly for equal rule sets
+
+// VerifC19Reload: Interface.reloadFirewall with a tracked flow in the old firewall's table, then one packet of the flow.
+func VerifC19Reload() {
+	myCert := &vCert{name: "me", ver: cert.Version2, networks: []netip.Prefix{netip.MustParsePrefix("10.1.0.1/16")}}
+	unsafeChanged := verifBool("cert_unsafe_networks_changed")
+	if unsafeChanged {
+		myCert.unsafe = []netip.Prefix{netip.MustParsePrefix("192.168.7.0/24")}
+	}
+	old := NewFirewall(c19Log, time.Hour, time.Hour, time.Hour, &vCert{name: "me", networks: myCert.networks})
+	old.rules = "in tcp/80"
+	verifAssume(old.AddRule(true, firewall.ProtoTCP, 80, 80, nil, "any", "", "", "", "") == nil)
+	old.rulesVersion = verifU16("old_version")
+	peerAddr := netip.AddrFrom4([4]byte{10, 1, 0, 2})
+	peer := &vCert{name: "peer", issuer: "sha-one", networks: []netip.Prefix{netip.PrefixFrom(peerAddr, 16)}}
+	myNets := new(bart.Lite)
+	myNets.Insert(netip.MustParsePrefix("10.1.0.0/16"))
+	h := &HostInfo{vpnAddrs: []netip.Addr{peerAddr}, ConnectionState: &ConnectionState{peerCert: vCached(peer)}}
+	h.buildNetworks(myNets, peer)
+	pool := cert.NewCAPool()
+	p := firewall.Packet{RemoteAddr: peerAddr, LocalAddr: netip.AddrFrom4([4]byte{10, 1, 0, 1}), RemotePort: 4000, LocalPort: 80, Protocol: firewall.ProtoTCP}
+	t0 := time.Now()
+	verifAssert(old.Drop(p, true, h, pool, nil) == nil, "the flow is established under the old rules")
+
+	// the reloaded configuration
+	c19ConfigChanged = verifBool("firewall_config_changed")
+	loadFails := verifBool("new_config_invalid")
+	stillAllows := verifBool("new_rules_still_allow_the_flow")
+	nf := NewFirewall(c19Log, time.Hour, time.Hour, time.Hour, myCert)
+	if stillAllows {
+		nf.rules = "in tcp/80"
+		verifAssume(nf.AddRule(true, firewall.ProtoTCP, 80, 80, nil, "any", "", "", "", "") == nil)
+	} else {
+		nf.rules = "in tcp/443"
+		verifAssume(nf.AddRule(true, firewall.ProtoTCP, 443, 443, nil, "any", "", "", "", "") == nil)
+	}
+	c19NewFW = nf
+	if loadFails {
+		c19NewFW = nil
+	}
+	pk := &PKI{l: c19Log}
+	pk.cs.Store(&CertState{v2Cert: myCert, initiatingVersion: cert.Version2})
+	f := &Interface{l: c19Log, firewall: old, pki: pk}
+	f.reloadFirewall(config.NewC(c19Log))
+
+	rebuilt := (c19ConfigChanged || unsafeChanged) && !loadFails
+	if !rebuilt {
+		verifAssert(f.firewall == old && old.rulesVersion == f.firewall.rulesVersion, "without a firewall change (or with an invalid new configuration) the running firewall stays")
+	} else {
+		verifAssert(f.firewall == nf, "a changed configuration installs the new firewall")
+		verifAssert(nf.rulesVersion == old.rulesVersion+1, "every rebuild advances the rule-set version, whatever triggered it")
+		if nf.rulesVersion != 0 {
+			verifAssert(nf.Conntrack == old.Conntrack, "tracked flows are carried over to be revalidated")
+		} else {
+			verifAssert(nf.Conntrack != old.Conntrack && len(nf.Conntrack.Conns) == 0, "when the version counter wraps the table is reset instead")
+		}
+	}
+	// the flow's next packet (its original direction: inbound)
+	err := f.firewall.Drop(p, true, h, pool, nil)
+	verifAssume(time.Now().Sub(t0) < time.Minute)
+	if rebuilt && !stillAllows {
+		verifAssert(err != nil, "a flow whose original direction the current rules no longer allow is forgotten")
+		_, tracked := f.firewall.Conntrack.Conns[p]
+		verifAssert(!tracked, "a flow whose original direction the current rules no longer allow is forgotten")
+	}
+	if !rebuilt || stillAllows {
+		verifAssert(err == nil, "a reload that leaves the flow allowed never cuts it")
+	}
+	var o uint64
+	if err == nil {
+		o = 1
+	}
+	verifObserve("passes", o)
 }
